@@ -12,7 +12,7 @@ def keys():
     if _KEYS:
         return _KEYS
     from Cryptodome.PublicKey import ECC, RSA
-    for c in ('P-256', 'P-384', 'P-521'):
+    for c in ('P-224', 'P-256', 'P-384', 'P-521'):
         k = ECC.generate(curve=c)
         _KEYS['ec' + c[2:]] = (k.export_key(format='DER'), k.public_key())
     k = ECC.generate(curve='ed25519')
@@ -76,10 +76,29 @@ class CustomSigner(SynthSigner):
         si.signature_seq_num = d.get('seq')
 
 
-def make_signer(spec, key_name=None):
-    """spec: ['none'] | ['digest', for_interest] | ['hmac'] | ['ec256'|'ec384'|'ec521'] | ['rsa2048'|'rsa4096'] | ['ed25519']
+def key_in_form(kind, der, form):
+    """the same private key as the caller may hand it to a signer: DER bytes (default), DER in a bytearray / memoryview,
+    PEM text (ECDSA and RSA signers take `bytes | str`), HMAC key bytes in a bytearray / memoryview"""
+    if form in (None, 'der'):
+        return der
+    if form == 'pem' and (kind.startswith('ec') or kind.startswith('rsa')):
+        if kind.startswith('ec'):
+            from Cryptodome.PublicKey import ECC
+            return ECC.import_key(der).export_key(format='PEM')
+        from Cryptodome.PublicKey import RSA
+        return RSA.import_key(der).export_key('PEM').decode()
+    if form == 'bytearray' and (kind == 'hmac' or kind == 'ed25519'):
+        return bytearray(der)
+    if form == 'mv' and (kind == 'hmac' or kind == 'ed25519'):
+        return memoryview(bytearray(b'\x00\x00' + der + b'\x00'))[2:2 + len(der)]
+    return der
+
+
+def make_signer(spec, key_name=None, key_form=None):
+    """spec: ['none'] | ['digest', for_interest] | ['hmac'] | ['ec224'|'ec256'|'ec384'|'ec521'] | ['rsa2048'|'rsa4096'] | ['ed25519']
              | ['null'] | ['synth', reserved, real] | ['custom', reserved, real, {SignatureInfo fields}]
-       key_name: the KeyLocator Name for the keyed signers (list of encoded components); a default when None"""
+       key_name: the KeyLocator Name for the keyed signers (list of encoded components); a default when None
+       key_form: see key_in_form"""
     from ndn import security as sec
     k = spec[0]
     if k == 'none':
@@ -87,13 +106,13 @@ def make_signer(spec, key_name=None):
     if k == 'digest':
         return sec.DigestSha256Signer(bool(spec[1]))
     if k == 'hmac':
-        return sec.HmacSha256Signer('/k/hmac' if key_name is None else key_name, b'secret-key-0123')
+        return sec.HmacSha256Signer('/k/hmac' if key_name is None else key_name, key_in_form(k, b'secret-key-0123', key_form))
     if k.startswith('ec'):
-        return sec.Sha256WithEcdsaSigner('/k/' + k if key_name is None else key_name, keys()[k][0])
+        return sec.Sha256WithEcdsaSigner('/k/' + k if key_name is None else key_name, key_in_form(k, keys()[k][0], key_form))
     if k.startswith('rsa'):
-        return sec.Sha256WithRsaSigner('/k/rsa' if key_name is None else key_name, key(k)[0])
+        return sec.Sha256WithRsaSigner('/k/rsa' if key_name is None else key_name, key_in_form(k, key(k)[0], key_form))
     if k == 'ed25519':
-        return sec.Ed25519Signer('/k/ed' if key_name is None else key_name, keys()[k][0])
+        return sec.Ed25519Signer('/k/ed' if key_name is None else key_name, key_in_form(k, keys()[k][0], key_form))
     if k == 'null':
         return sec.NullSigner()
     if k == 'synth':
@@ -140,7 +159,23 @@ def uri_name(comps):
     return s
 
 
-NAME_FORMS = ['comps', 'comps', 'comps', 'uri', 'strs', 'wire', 'wire_mv', 'mixed']
+def uri_comp_alt(c, r):
+    """another legal NDN URI spelling of the same component: lower-case hex digits in the percent-escapes, unreserved
+    characters percent-encoded as well, an explicit `8=` in front of a generic component, upper-case hex in the digests"""
+    t, v = _split_comp(bytes(c))
+    if t == 1 or t == 2:
+        h = v.hex().upper() if r.random() < 0.5 else v.hex()
+        return ('sha256digest=' if t == 1 else 'params-sha256=') + h
+    alldots = bool(v) and all(b == 0x2e for b in v)
+    fmt = '%%%02x' if r.random() < 0.6 else '%%%02X'
+    every = r.random() < 0.4
+    txt = ''.join(chr(b) if (b in _UNRESERVED and not alldots and not (every and r.random() < 0.7)) else fmt % b for b in v)
+    if t == 8:
+        return '8=' + txt if (v and r.random() < 0.4) else txt
+    return f'{t}={txt}'
+
+
+NAME_FORMS = ['comps', 'comps', 'comps', 'uri', 'strs', 'wire', 'wire_mv', 'mixed', 'gen', 'wire_ba', 'uri_alt', 'strs_alt', 'tuple']
 
 
 def name_in_form(comps, form, seed=0):
@@ -154,10 +189,27 @@ def name_in_form(comps, form, seed=0):
         return uri_name(comps)
     if form == 'strs':
         return [uri_comp(c) for c in comps]
-    if form in ('wire', 'wire_mv'):
+    if form in ('wire', 'wire_mv', 'wire_ba'):
         body = b''.join(comps)
         w = T.tl(7) + T.tl(len(body)) + body
-        return w if form == 'wire' else memoryview(bytearray(w))
+        return w if form == 'wire' else bytearray(w) if form == 'wire_ba' else memoryview(bytearray(w))
+    if form == 'gen':
+        return (c for c in comps)               # a one-shot iterator of components
+    if form == 'tuple':
+        return tuple(comps)
+    if form in ('uri_alt', 'strs_alt'):
+        r = random.Random(seed)
+        parts = [uri_comp_alt(c, r) for c in comps]
+        if form == 'strs_alt':
+            return parts
+        s = '/' + '/'.join(parts)
+        if comps and comps[-1] == b'\x08\x00':
+            s += '/'
+        elif comps and parts[0] and r.random() < 0.3:
+            s = s[1:]                           # the leading slash is optional
+        if comps and comps[-1] != b'\x08\x00' and parts[-1] and r.random() < 0.2:
+            s += '/'                            # one trailing slash is ignored
+        return s
     if form == 'mixed':
         r = random.Random(seed)
         out = []
@@ -207,7 +259,7 @@ def exc_name(e):
 
 # ------------------------------------------------------------------------------------- generators
 SIGNERS = [['none'], ['none'], ['digest', 0], ['digest', 1], ['hmac'], ['ec256'], ['ec256'], ['ec384'], ['ec521'],
-           ['ed25519'], ['null'], ['rsa2048']]
+           ['ed25519'], ['null'], ['rsa2048'], ['ec224']]
 COMP_TYPES = [8, 8, 8, 1, 32, 50, 52, 54, 56, 58, 252, 253, 65535]
 
 
@@ -323,7 +375,7 @@ def rand_custom(rng, big_ok=False):
     return ['custom', reserved, real, si]
 
 
-KEYED = ('hmac', 'ec256', 'ec384', 'ec521', 'rsa2048', 'rsa4096', 'ed25519')
+KEYED = ('hmac', 'ec224', 'ec256', 'ec384', 'ec521', 'rsa2048', 'rsa4096', 'ed25519')
 
 
 def _stress_common(rng, c, tier):
@@ -346,6 +398,17 @@ def _stress_common(rng, c, tier):
         c['signer'] = ['rsa4096']
     if c['signer'][0] in KEYED and 'key_name' not in c and rng.random() < 0.1:
         c['key_name'] = [x.hex() for x in rand_name(rng)]
+    # how the caller holds its arguments, and what it did with them before (see make_packet)
+    if rng.random() < 0.3:
+        c['payload_form'] = rng.choice(BUF_FORMS[1:])
+    if c['signer'][0] in KEYED and rng.random() < 0.3:
+        c['key_form'] = rng.choice(['pem', 'bytearray', 'mv'])
+    if rng.random() < 0.15:
+        c['obj_form'] = 'from_dict'
+    if rng.random() < 0.25:
+        c['pre'] = rng.choice(['same', 'same', 'params', 'params', 'raise'])
+    if rng.random() < 0.4:
+        c['parse_form'] = rng.choice(BUF_FORMS[1:] + ['no_tl', 'no_tl'])
 
 
 def gen_data_case(rng, tier):
@@ -376,7 +439,7 @@ def gen_data_case(rng, tier):
 
 def gen_interest_case(rng, tier):
     signer = rng.choice(SIGNERS) if rng.random() < 0.75 else rand_synth(rng)
-    if signer[0] == 'digest':
+    if signer[0] == 'digest' and rng.random() < 0.7:
         signer = ['digest', 1]
     if tier == 'quick' and signer[0] == 'rsa2048' and rng.random() < 0.7:
         signer = ['ec256']
@@ -399,6 +462,9 @@ def gen_interest_case(rng, tier):
          'seed': rng.getrandbits(32), 'signer': signer}
     if rng.random() < 0.45:
         _stress_common(rng, c, tier)
+        if c.get('pre') in ('params', 'raise') and rng.random() < 0.5:
+            # the earlier call needed a parameters digest, this one is a plain Interest for the same name object
+            c['signer'], c['app'] = ['none'], None
         if c['signer'][0] == 'none' and c['app'] is None:
             c['name'] = [x for x in c['name'] if not x.startswith('02')]
         big_ok = tier != 'quick' and rng.random() < 0.04
@@ -443,33 +509,112 @@ def _ranges_to_bytes(lst):
     return [bytes(x) for x in (lst or [])]
 
 
+BUF_FORMS = ['bytes', 'bytearray', 'mv', 'mv_slice']
+
+
+def buf_in_form(b, form, scratch=None):
+    """the same byte string as a caller may hold it (BinaryStr): bytes, bytearray, read-only memoryview, or a memoryview
+    into the middle of a larger writable buffer.  Writable buffers are remembered in `scratch` (the caller reuses them)"""
+    if b is None or form in (None, 'bytes'):
+        return b
+    if form == 'bytearray':
+        x = bytearray(b)
+        if scratch is not None:
+            scratch.append(x)
+        return x
+    if form == 'mv':
+        return memoryview(bytes(b))
+    if form == 'mv_slice':
+        big = bytearray(b'\xe7' * 3 + bytes(b) + b'\x7e' * 5)
+        if scratch is not None:
+            scratch.append(big)
+        return memoryview(big)[3:3 + len(b)]
+    raise ValueError(form)
+
+
+def _scribble(scratch):
+    """the caller reuses its writable buffers after the call returned"""
+    for x in scratch:
+        for i in range(len(x)):
+            x[i] = 0x5a
+
+
+class RaisingSigner(SynthSigner):
+    """fails while it is asked for the signature value (a key store that went away)"""
+    def write_signature_value(self, wire, contents):
+        raise RuntimeError('signing failed')
+
+
 def make_packet(case):
-    """returns dict: made wire (or error), what the signer saw, and the model's input values"""
+    """returns dict: made wire (or error), what the signer saw, and the model's input values.
+    Optional case keys (all default to the plain call): name_form / fh_form (see name_in_form), payload_form (BUF_FORMS:
+    how Content / ApplicationParameters / FinalBlockId are held), key_form (key_in_form), obj_form='from_dict'
+    (MetaInfo.from_dict / InterestParam.from_dict build the parameter object), pre = an EARLIER call made with the very
+    same argument objects (name, MetaInfo / InterestParam, payload, signer): 'same' (the same call; Interest: without
+    need_final_name - its wire is returned as `first`), 'params' (unsigned, with a payload), 'raise' (a signer that
+    fails while signing)."""
     from ndn import encoding as enc
     out = {}
     kn = case.get('key_name')
-    inner = make_signer(case['signer'], None if kn is None else [bytes.fromhex(c) for c in kn])
+    try:
+        inner = make_signer(case['signer'], None if kn is None else [bytes.fromhex(c) for c in kn], case.get('key_form'))
+    except Exception as e:   # noqa  (a signer that cannot be built from a legal key counts as a packet that cannot be built)
+        return {'made': ['err', exc_name(e)], 'siginfo': '_', 'final_name': None}
     rec = Recorder(inner) if inner is not None else None
-    name = name_in_form([bytes.fromhex(c) for c in case['name']], case.get('name_form'), case['seed'])
+    scratch = []
+    pre = case.get('pre')
+    nform = case.get('name_form')
+
+    def mkname():
+        return name_in_form([bytes.fromhex(c) for c in case['name']], nform, case['seed'])
+    name = mkname()
+    if nform in ('wire_mv', 'wire_ba'):
+        scratch.append(name.obj if isinstance(name, memoryview) else name)
+    pform = case.get('payload_form')
     try:
         if case['pkt'] == 'data':
             m = case['meta']
-            mi = None if m is None else enc.MetaInfo(
-                content_type=m['content_type'], freshness_period=m['freshness_period'],
-                final_block_id=None if m['final_block_id'] is None else bytes.fromhex(m['final_block_id']))
-            content = None if case['content'] is None else payload(case, case['content'])
-            wire = bytes(enc.make_data(name, mi, content, signer=rec))
+            if m is None:
+                mi = None
+            else:
+                fbi = None if m['final_block_id'] is None else buf_in_form(bytes.fromhex(m['final_block_id']), pform, scratch)
+                if case.get('obj_form') == 'from_dict':
+                    mi = enc.MetaInfo.from_dict({'content_type': m['content_type'], 'freshness_period': m['freshness_period'],
+                                                 'final_block_id': fbi, 'unrelated': 1})
+                else:
+                    mi = enc.MetaInfo(content_type=m['content_type'], freshness_period=m['freshness_period'], final_block_id=fbi)
+            content = None if case['content'] is None else buf_in_form(payload(case, case['content']), pform, scratch)
+            if pre is not None:
+                out['first'] = _pre_call(enc, case, pre, name, mi, content, rec)
+                if nform == 'gen':
+                    name = mkname()
+            ret = enc.make_data(name, mi, content, signer=rec)
+            _scribble(scratch)
+            wire = bytes(ret)
             out['final_name'] = None
         else:
             p = case['param']
-            ip = enc.InterestParam(can_be_prefix=p['can_be_prefix'], must_be_fresh=p['must_be_fresh'], nonce=p['nonce'],
-                                   lifetime=p['lifetime'], hop_limit=p['hop_limit'],
-                                   forwarding_hint=[name_in_form([bytes.fromhex(c) for c in n], case.get('fh_form'), case['seed'] + i)
-                                                    for i, n in enumerate(p['forwarding_hint'])])
-            ap = None if case['app'] is None else payload(case, case['app'])
-            wire, fn = enc.make_interest(name, ip, ap, signer=rec, need_final_name=True)
-            wire = bytes(wire)
+            fhf = case.get('fh_form')
+            if fhf == 'gen' and pre is not None:
+                fhf = 'tuple'                   # (a one-shot iterator inside a parameter object cannot be used for two calls)
+            fh = [name_in_form([bytes.fromhex(c) for c in n], fhf, case['seed'] + i)
+                  for i, n in enumerate(p['forwarding_hint'])]
+            if case.get('obj_form') == 'from_dict':
+                ip = enc.InterestParam.from_dict({'can_be_prefix': p['can_be_prefix'], 'must_be_fresh': p['must_be_fresh'],
+                                                  'nonce': p['nonce'], 'lifetime': p['lifetime'], 'hop_limit': p['hop_limit'],
+                                                  'forwarding_hint': fh, 'unrelated': 1})
+            else:
+                ip = enc.InterestParam(can_be_prefix=p['can_be_prefix'], must_be_fresh=p['must_be_fresh'], nonce=p['nonce'],
+                                       lifetime=p['lifetime'], hop_limit=p['hop_limit'], forwarding_hint=fh)
+            ap = None if case['app'] is None else buf_in_form(payload(case, case['app']), pform, scratch)
+            if pre is not None:
+                out['first'] = _pre_call(enc, case, pre, name, ip, ap, rec)
+                if nform == 'gen':
+                    name = mkname()
+            ret, fn = enc.make_interest(name, ip, ap, signer=rec, need_final_name=True)
             out['final_name'] = [bytes(c).hex() for c in fn]
+            _scribble(scratch)
+            wire = bytes(ret)
         out['made'] = ['ok', wire.hex()]
     except Exception as e:   # noqa
         out['made'] = ['err', exc_name(e)]
@@ -483,19 +628,64 @@ def make_packet(case):
     return out
 
 
-def parse_packet(kind, wire):
-    """parse_data / parse_interest on the real library; canonical observation incl. SignaturePtrs as bytes"""
+def _pre_call(enc, case, pre, name, obj, pl, rec):
+    """an earlier make_* call with the same argument objects; returns ['ok', wire hex] / ['err', class]"""
+    data = case['pkt'] == 'data'
+    try:
+        if pre == 'same':
+            w = enc.make_data(name, obj, pl, signer=rec) if data else enc.make_interest(name, obj, pl, signer=rec)
+        elif pre == 'params':
+            w = enc.make_data(name, obj, b'earlier', signer=None) if data else enc.make_interest(name, obj, b'earlier', signer=None)
+        else:
+            sg = RaisingSigner(32, 32)
+            w = enc.make_data(name, obj, pl, signer=sg) if data else enc.make_interest(name, obj, pl, signer=sg)
+        return ['ok', bytes(w).hex()]
+    except Exception as e:   # noqa
+        return ['err', exc_name(e)]
+
+
+def as_form(wire, form):
+    """the received bytes as the caller may hold them (see buf_in_form)"""
+    return buf_in_form(bytes(wire), form if form in BUF_FORMS else None)
+
+
+def _strip_tl(wire):
+    """Value of the outer element when its Type / Length are complete and the Length is the rest of the wire, else None"""
+    try:
+        def num(o):
+            b = wire[o]
+            if b <= 0xFC:
+                return b, 1
+            w = {0xFD: 2, 0xFE: 4, 0xFF: 8}[b]
+            if o + 1 + w > len(wire):
+                raise IndexError
+            return int.from_bytes(wire[o + 1:o + 1 + w], 'big'), 1 + w
+        _, a = num(0)
+        ln, b = num(a)
+        return wire[a + b:] if a + b + ln == len(wire) else None
+    except IndexError:
+        return None
+
+
+def parse_packet(kind, wire, form=None):
+    """parse_data / parse_interest on the real library; canonical observation incl. SignaturePtrs as bytes.
+    form: how the wire is held (BUF_FORMS), or 'no_tl' = only the Value is handed over (with_tl=False)"""
     from ndn import encoding as enc
     from ndn.encoding import ndn_format_0_3 as f
     from ndn.encoding.tlv_var import parse_and_check_tl
     try:
+        value = _strip_tl(wire) if form == 'no_tl' else None
+        if value is not None and wire[0] == (6 if kind == 'data' else 5):
+            arg, kw = value, {'with_tl': False}
+        else:
+            arg, kw = as_form(wire, form), {}
         if kind == 'data':
-            name, mi, content, sp = enc.parse_data(wire)
+            name, mi, content, sp = enc.parse_data(arg, **kw)
             cls, outer = f.DataPacketValue, 6
             api = {'content_type': mi.content_type, 'freshness_period': mi.freshness_period,
                    'final_block_id': None if mi.final_block_id is None else bytes(mi.final_block_id).hex()}
         else:
-            name, ip, content, sp = enc.parse_interest(wire)
+            name, ip, content, sp = enc.parse_interest(arg, **kw)
             cls, outer = f.InterestPacketValue, 5
             api = {'can_be_prefix': ip.can_be_prefix, 'must_be_fresh': ip.must_be_fresh, 'nonce': ip.nonce,
                    'lifetime': ip.lifetime, 'hop_limit': ip.hop_limit,
